@@ -99,6 +99,7 @@ class DAGRunConcurrentManager(DAGRunManagerLike):
     _lock_manager: DAGConcurrentManagerLock = field(init=False)
     _memorization_store: t.Dict[t.Any, t.Any] = field(default_factory=dict)
     _coro_tasks: t.Set[asyncio.Task] = field(default_factory=set)
+    _released_oneof_children: t.Set[NodeId] = field(default_factory=set)
     _alias_run_method: str = 'run'
 
     def __post_init__(self) -> None:
@@ -262,10 +263,14 @@ class DAGRunConcurrentManager(DAGRunManagerLike):
             Args:
                 u -  Node
             """
-            return not self.dag.graph.nodes[u].get(NodeField.is_oneof_child)
+            return (
+                u in self._released_oneof_children
+                or not self.dag.graph.nodes[u].get(NodeField.is_oneof_child)
+            )
 
         if is_oneof:
-            self.dag.graph.nodes[dest][NodeField.is_oneof_child] = False
+            # The graph is shared by all runs of the DAG, so the mark cannot be changed in the graph itself
+            self._released_oneof_children.add(dest)
 
         return get_connected_subgraph(
             dag=nx.subgraph_view(self.dag.graph, filter_edge=_filter, filter_node=_filter_node),
